@@ -61,6 +61,9 @@ fn family(name: &str) -> GenCfg {
         "solochurn" => GenCfg { threads: (3, 5), ops: (1, 4), hold: vec![0, 0, 8], w: [5, 2, 3, 1, 6, 4, 2, 2, 1], ..base },
         "solonofast" => GenCfg { threads: (2, 4), strategy: 1, w: [5, 2, 3, 1, 6, 4, 3, 3, 1], ..base },
         "panic" => GenCfg { threads: (2, 3), w: [4, 2, 3, 1, 6, 3, 2, 6, 1], hold: vec![0, 0, 3, 8], panics: true, with_null: false, ..base },
+        // the panic family on the fallback-only and on the lock-based strategy
+        "panicnf" => GenCfg { threads: (2, 3), strategy: 1, w: [4, 2, 3, 1, 6, 3, 2, 6, 1], hold: vec![0, 0, 3, 8], panics: true, with_null: false, ..base },
+        "panicrw" => GenCfg { threads: (2, 3), strategy: 2, w: [4, 2, 3, 1, 6, 3, 4, 6, 1], hold: vec![0, 0, 3], panics: true, with_null: false, ..base },
         "churn" => GenCfg { threads: (3, 5), ops: (1, 3), hold: vec![0, 0, 8], ..base },
         // every load on the fallback path (no fast slots), writers mostly rcu/cas: helpers abound
         "helprcu" => GenCfg { threads: (3, 4), strategy: 1, w: [9, 4, 4, 1, 3, 2, 3, 6, 1], ops: (3, 7), with_null: false, ..base },
@@ -161,7 +164,9 @@ fn parse_execs(text: &str) -> Vec<(usize, u64, Program, Vec<(usize, bool)>)> {
 
 fn main() {
     // panics inside the crate under test are caught per operation and reported as violations
-    std::panic::set_hook(Box::new(|_| {}));
+    if std::env::var_os("HARNESS_SHOW_PANICS").is_none() {
+        std::panic::set_hook(Box::new(|_| {}));
+    }
     let args: Vec<String> = std::env::args().collect();
     let get = |k: &str| args.iter().position(|a| a == k).and_then(|i| args.get(i + 1)).cloned();
     let mode = args.get(1).cloned().unwrap_or_default();
